@@ -62,6 +62,9 @@ def run(P, rep, tier):
     # what is stored is the serialisation of the validated object (pairing rules of C06.R1): input that merely parses is not
     # what the embedded JSON Schema describes
     rep.attempt(c06.r1_pairing, P, rep, ctx)
+    # only validated objects are stored (attach discipline of C07.R2), and copies are re-linked (C06.R2)
+    rep.attempt(c07.r2_set_discipline, P, rep, ctx)
+    rep.attempt(c06.r2_node_ops, P, rep, ctx)
     rep.floor("C20.R1", 12)
     rep.floor("C20.R2", 12)
     rep.floor("C20.R3", 18)
